@@ -41,13 +41,16 @@ Section StreamSpec.
       (length rest < length buf)%nat /\ exists used, buf = used ++ rest.
 
   (* "a complete frame in the buffer is always either consumed or rejected";
-     [complete] is the protocol's framing rule *)
+     [complete] is the protocol's framing rule: with a complete frame at the head of the
+     buffer a call returns a message, an error, or - if it asks for more bytes - has taken
+     bytes away (the RTR decoder drops complete PDUs of types the client does not use) *)
   Definition complete_frame_decided (complete : list N -> Prop) : Prop :=
-    forall buf, complete buf -> dec buf <> DNeed.
+    forall buf rest, complete buf -> dec buf = DNeed rest -> (length rest < length buf)%nat.
 
-  (* and more bytes are requested only while the frame is incomplete *)
+  (* and when more bytes are requested, what stays in the buffer is a suffix of it that does
+     not start with a complete frame *)
   Definition need_only_if_incomplete (complete : list N -> Prop) : Prop :=
-    forall buf, dec buf = DNeed -> ~ complete buf.
+    forall buf rest, dec buf = DNeed rest -> ~ complete rest /\ exists used, buf = used ++ rest.
 
   (* the driver of Model/Stream.v never observes a spin and never runs out of
      its own iteration bound *)
@@ -86,3 +89,13 @@ Definition bgp_length_field (buf : list N) : option N :=
 
 Definition bgp_complete (maxlen : N) (buf : list N) : Prop :=
   19 <= len buf /\ exists l, bgp_length_field buf = Some l /\ (l < 19 \/ maxlen < l \/ l <= len buf).
+
+(* "a protocol error that maps to a NOTIFICATION": the (code, subcode) pairs a receive-path
+   error may carry - RFC 4271 section 6.1 Message Header Error (bad length, bad type), 6.2 OPEN
+   Message Error (unspecific, unsupported version, bad BGP identifier, unsupported optional
+   parameter, unacceptable hold time), 6.3 UPDATE Message Error (malformed attribute list,
+   optional attribute error - the two RFC 7606 leaves for a session reset), RFC 7313 section 5
+   ROUTE-REFRESH Message Error (invalid message length). *)
+Definition notification_allowed (code sub : N) : bool :=
+  existsb (fun p => (fst p =? code) && (snd p =? sub))
+          [(1, 2); (1, 3); (2, 0); (2, 1); (2, 3); (2, 4); (2, 6); (3, 1); (3, 9); (7, 1)].
